@@ -246,8 +246,8 @@ Proof. vm_compute. reflexivity. Qed.
 
 (* ... the success path of C13_never_false_success, and a fallback meeting the hypotheses of C13_same_files_as_local *)
 Example dist_success :
-  client_sees (r_out (dist_or_local true ok_script [(0%N, CPre)])) = CcStatus (CsExit 0)
-  /\ r_out (dist_or_local true ok_script [(0%N, CPre)]) = OOk DistOk 0%Z
+  client_sees (r_out (dist_or_local true ok_script [(0%N, CPre 2)])) = CcStatus (CsExit 0)
+  /\ r_out (dist_or_local true ok_script [(0%N, CPre 2)]) = OOk DistOk 0%Z
   /\ first_fault ok_script = None.
 Proof. vm_compute. auto. Qed.
 
@@ -255,7 +255,7 @@ Example fallback_same_files :
   let s := set_run (RunComplete 0 [(0%N, WOk); (1%N, WCopy)]) ok_script in
   first_fault s = Some (StWrite 1, EOther)
   /\ incl (map fst (run_outs s)) (local_writes s)
-  /\ r_out (dist_or_local true s [(1%N, CPre)]) = OOk DistError 0%Z
+  /\ r_out (dist_or_local true s [(1%N, CPre 2)]) = OOk DistError 0%Z
   /\ attempted s = [0%N; 1%N].
 Proof.
   cbv zeta. split; [vm_compute; reflexivity|]. split; [|vm_compute; auto].
